@@ -452,7 +452,17 @@ func Supervise(id, tier string, seed int64, jobs int, onlyIdx int, onlyVariant s
 	knownObserved := map[string]int{}
 	if len(merged.Failures) > 0 && os.Getenv("VERIF_DUMP") != "" {
 		os.MkdirAll(filepath.Join(root, "replays", id), 0o755)
-		fl := merged.Failures
+		var fl []Failure
+		for _, f := range merged.Failures {
+			if _, ok := knownBySig[f.Sig]; !ok {
+				fl = append(fl, f)
+			}
+		}
+		for _, f := range merged.Failures {
+			if _, ok := knownBySig[f.Sig]; ok {
+				fl = append(fl, f)
+			}
+		}
 		if len(fl) > 500 {
 			fl = fl[:500]
 		}
